@@ -281,8 +281,19 @@ def aggr_tie(ctx):
 
 def run(ctx):
     translator_tie(ctx)
-    aggr_tie(ctx)
-    method_oracle(ctx)
+    for part in (aggr_tie, method_oracle):
+        try:
+            part(ctx)
+        except Exception as e:
+            # the real code raised on a valid query-method chain: the method did not return what Python returns
+            import traceback
+            tb = traceback.extract_tb(e.__traceback__)
+            where = next((f for f in reversed(tb) if '/pony/' in f.filename), tb[-1])
+            ctx.violation('a query method raised %s on a valid chain (%s)' % (type(e).__name__, str(e)[:200]),
+                          {'part': part.__name__, 'exception': type(e).__name__, 'message': str(e)[:300], 'where': '%s:%s %s' % (where.filename, where.lineno, where.name),
+                           'harness_line': next((f.lineno for f in reversed(tb) if f.filename.endswith('c24.py')), None)},
+                          observed='raised ' + type(e).__name__, expected='the list operation result',
+                          key='raised:%s:%s' % (type(e).__name__, where.name))
 
 def replay(ctx, data):
     run(ctx)
